@@ -275,14 +275,12 @@ def run_replay(inp: dict, rec) -> None:  # noqa: ANN001
 
 
 def run_pinned(findings: list[dict], rec) -> dict:  # noqa: ANN001
-    from vf.core.rec import Recorder
+    from vf.core.rec import Recorder, pinned_result
 
     out = {}
     for f in findings:
         sub = Recorder(PROP, {})
         w = f["witness"]
         run_one(sub, w["old"], w["new"])
-        reproduced = bool(sub.n_fail or sub.known)
-        out[f["id"]] = {"reproduced": reproduced, "detail": (sub.fails[0]["what"] if sub.fails else
-                                                             next(iter(sub.known.values()))["first"]["what"] if sub.known else "passes")}
+        out[f["id"]] = pinned_result(sub, f)
     return out
